@@ -148,8 +148,8 @@ class PandasData(BaseIOSpec):
                 self._read_args["index_col"] = list(range(data.index.nlevels))
             else:
                 self._read_args["index_col"] = 0
-            if isinstance(data, pd.Series):
-                self._squeeze = True
+            # Reset as well: the value may have been a Series before
+            self._squeeze = isinstance(data, pd.Series)
             if self._io.file_type == "excel":
                 if (len(self._io.path.suffix[1:]) > 3
                         and self._io.path.suffix[1:4] == "xls"):
